@@ -1,77 +1,108 @@
-(** [inline_groups] and [desugar_flags] (analyzer.rs 1767-1895). *)
+(** [inline_groups] and [desugar_flags] (analyzer.rs 1767-1895).
+
+    The site-aware versions ([inline_groups_r], [desugar_flags_r]) return [pres]:
+    a value, or the [unwrap()] that fails, named "<line>:<function>:<expression>"
+    after its line in analyzer.rs.  [inline_groups] / [desugar_flags] are the same
+    functions with the site forgotten ([None] = some [unwrap()] fails). *)
 From Coq Require Import NArith List String Bool.
 From PDL Require Import Base.Bits Lang.Ast Lang.Sexp.
 Import ListNotations.
 Open Scope string_scope.
 Open Scope N_scope.
 
-(** ** desugar_flags *)
+(** ** Results of modelled analyzer code: a value or a panic at a named site *)
 
-(** For one condition identifier, the (optional field id, condition value) pairs in
-    field order.  [cond.value.unwrap()] / [field.id().unwrap()] are panics, [None] here. *)
-Fixpoint flag_uses (cid : string) (fs : list field) : option (list (string * N)) :=
+Inductive pres (A : Type) := POk (a : A) | PPanic (site : string).
+Arguments POk {A} a.
+Arguments PPanic {A} site.
+
+Definition pbind {A B} (x : pres A) (f : A -> pres B) : pres B :=
+  match x with
+  | POk a => f a
+  | PPanic s => PPanic s
+  end.
+
+Notation "'let!' x ':=' e 'in' f" := (pbind e (fun x => f))
+  (at level 200, x pattern, e at level 100, f at level 200, right associativity).
+
+Definition pres_option {A} (r : pres A) : option A :=
+  match r with POk a => Some a | PPanic _ => None end.
+
+(** Left-to-right map: the first panic (in list order) wins. *)
+Fixpoint pmap {A B} (f : A -> pres B) (l : list A) : pres (list B) :=
+  match l with
+  | [] => POk []
+  | x :: l' =>
+      let! y := f x in
+      let! r := pmap f l' in
+      POk (y :: r)
+  end.
+
+(** ** desugar_flags (1864-1895) *)
+
+(** The first loop (1871-1879): for every optional field, in field order, the triple
+    (condition id, (field id, condition value)).  [field.id().unwrap()] and
+    [cond.value.unwrap()] sit on the same line. *)
+Fixpoint condition_ids (fs : list field) : pres (list (string * (string * N))) :=
   match fs with
-  | [] => Some []
+  | [] => POk []
   | f :: rest =>
       match f_cond f with
+      | None => condition_ids rest
       | Some c =>
-          if String.eqb (c_id c) cid then
-            match field_id f, c_value c, flag_uses cid rest with
-            | Some fid, Some v, Some r => Some ((fid, v) :: r)
-            | _, _, _ => None
-            end
-          else flag_uses cid rest
-      | None => flag_uses cid rest
+          match field_id f with
+          | None => PPanic "1877:desugar_flags:field.id().unwrap()"
+          | Some fid =>
+              match c_value c with
+              | None => PPanic "1877:desugar_flags:cond.value.unwrap()"
+              | Some v =>
+                  let! r := condition_ids rest in
+                  POk ((c_id c, (fid, v)) :: r)
+              end
+          end
       end
   end.
 
-(** Every optional field must have an id and an integer condition value, whatever
-    its condition names (the first loop of [desugar_flags] unwraps all of them). *)
-Definition conds_unwrap_ok (fs : list field) : bool :=
-  forallb (fun f => match f_cond f with
-                    | Some c => match field_id f, c_value c with
-                                | Some _, Some _ => true
-                                | _, _ => false
-                                end
-                    | None => true
-                    end) fs.
+(** [condition_ids.get(id)]: the uses of [id] as a condition, in field order
+    ([[]] = the map has no entry). *)
+Definition optional_field_ids (cids : list (string * (string * N))) (id : string)
+  : list (string * N) :=
+  map snd (filter (fun p => String.eqb (fst p) id) cids).
 
-Definition desugar_field (all : list field) (f : field) : option field :=
+(** The second loop (1881-1890): ANY field whose identifier is used as a condition
+    becomes a flag (its own condition is kept). *)
+Definition desugar_field (cids : list (string * (string * N))) (f : field) : field :=
   match field_id f with
   | Some id =>
-      match flag_uses id all with
-      | Some [] => Some f
-      | Some uses => Some (mkField (Flag id uses) (f_cond f))
-      | None => None
+      match optional_field_ids cids id with
+      | [] => f
+      | uses => mkField (Flag id uses) (f_cond f)
       end
-  | None => Some f
+  | None => f
   end.
 
-Fixpoint map_opt' {A B} (f : A -> option B) (l : list A) : option (list B) :=
-  match l with
-  | [] => Some []
-  | x :: l' => match f x, map_opt' f l' with
-               | Some y, Some r => Some (y :: r)
-               | _, _ => None
-               end
-  end.
+Definition desugar_fields (fs : list field) : pres (list field) :=
+  let! cids := condition_ids fs in
+  POk (map (desugar_field cids) fs).
 
-Definition desugar_fields (fs : list field) : option (list field) :=
-  if conds_unwrap_ok fs then map_opt' (desugar_field fs) fs else None.
-
-Definition desugar_decl (d : decl) : option decl :=
+Definition desugar_decl (d : decl) : pres decl :=
   match d with
-  | DPacket id cs fs p => option_map (fun fs' => DPacket id cs fs' p) (desugar_fields fs)
-  | DStruct id cs fs p => option_map (fun fs' => DStruct id cs fs' p) (desugar_fields fs)
-  | DGroup id fs => option_map (DGroup id) (desugar_fields fs)
-  | _ => Some d
+  | DPacket id cs fs p => let! fs' := desugar_fields fs in POk (DPacket id cs fs' p)
+  | DStruct id cs fs p => let! fs' := desugar_fields fs in POk (DStruct id cs fs' p)
+  | DGroup id fs => let! fs' := desugar_fields fs in POk (DGroup id fs')
+  | _ => POk d
   end.
 
-Definition desugar_flags (fl : file) : option file :=
-  option_map (mkFile (f_endian fl)) (map_opt' desugar_decl (f_decls fl)).
+Definition desugar_flags_r (fl : file) : pres file :=
+  let! ds := pmap desugar_decl (f_decls fl) in
+  POk (mkFile (f_endian fl) ds).
 
-(** ** inline_groups *)
+Definition desugar_flags (fl : file) : option file := pres_option (desugar_flags_r fl).
 
+(** ** inline_groups (1768-1860) *)
+
+(** [groups.get(group_id)]: the map is collected from the group declarations in file
+    order, later ones replacing earlier ones. *)
 Definition lookup_group (fl : file) (gid : string) : option decl :=
   find (fun d => match d with DGroup id _ => String.eqb id gid | _ => false end)
        (rev (f_decls fl)).
@@ -82,60 +113,62 @@ Definition cenv := list (string * constr).
 Definition cenv_extend (env : cenv) (cs : list constr) : cenv :=
   (rev (map (fun c => (c_id c, c)) cs) ++ env)%list.
 
-(** [inline_fields]; fuel bounds group nesting ([check_decl_identifiers] has rejected
-    cyclic groups before).  [None] = one of the [unwrap]s fails. *)
-Fixpoint inline_fields (depth : nat) (fl : file) (env : cenv) (fs : list field) {struct depth}
-  : option (list field) :=
+(** [inline_fields] (1769-1813); fuel bounds group nesting ([check_decl_identifiers]
+    has rejected cyclic groups before).  The [flat_map] is lazy and the result is
+    collected in order, so the first failing [unwrap] in field order is the panic. *)
+Fixpoint inline_fields_r (depth : nat) (fl : file) (env : cenv) (fs : list field) {struct depth}
+  : pres (list field) :=
   match depth with
-  | O => None
+  | O => PPanic "1783:inline_fields:fuel (cyclic groups)"
   | S depth' =>
-      (fix go (fs : list field) : option (list field) :=
+      (fix go (fs : list field) : pres (list field) :=
          match fs with
-         | [] => Some []
+         | [] => POk []
          | f :: rest =>
-             let here :=
+             let! here :=
                match f_desc f with
                | Group gid gcs =>
                    match lookup_group fl gid with
-                   | Some g => inline_fields depth' fl (cenv_extend env gcs) (decl_fields g)
-                   | None => None
+                   | Some g => inline_fields_r depth' fl (cenv_extend env gcs) (decl_fields g)
+                   | None => PPanic "1783:inline_fields:groups.get(group_id).unwrap()"
                    end
                | Scalar id w =>
                    match assoc id env with
                    | Some c => match c_value c with
-                               | Some v => Some [mkField (FixedScalar w v) (f_cond f)]
-                               | None => None
+                               | Some v => POk [mkField (FixedScalar w v) (f_cond f)]
+                               | None => PPanic "1789:inline_fields:constraints.get(id).unwrap().value.unwrap()"
                                end
-                   | None => Some [f]
+                   | None => POk [f]
                    end
                | Typedef id tid =>
                    match assoc id env with
                    | Some c => match c_tag c with
-                               | Some t => Some [mkField (FixedEnum tid t) (f_cond f)]
-                               | None => None
+                               | Some t => POk [mkField (FixedEnum tid t) (f_cond f)]
+                               | None => PPanic "1803:inline_fields:constraint.tag_id.unwrap()"
                                end
-                   | None => Some [f]
+                   | None => POk [f]
                    end
-               | _ => Some [f]
+               | _ => POk [f]
                end in
-             match here, go rest with
-             | Some a, Some b => Some (a ++ b)%list
-             | _, _ => None
-             end
+             let! r := go rest in
+             POk (here ++ r)%list
          end) fs
   end.
 
 Definition inline_fuel (fl : file) : nat := S (S (List.length (f_decls fl))).
 
-Definition inline_decl (fl : file) (d : decl) : option (list decl) :=
+Definition inline_decl (fl : file) (d : decl) : pres (list decl) :=
   match d with
   | DPacket id cs fs p =>
-      option_map (fun fs' => [DPacket id cs fs' p]) (inline_fields (inline_fuel fl) fl [] fs)
+      let! fs' := inline_fields_r (inline_fuel fl) fl [] fs in POk [DPacket id cs fs' p]
   | DStruct id cs fs p =>
-      option_map (fun fs' => [DStruct id cs fs' p]) (inline_fields (inline_fuel fl) fl [] fs)
-  | DGroup _ _ => Some []
-  | _ => Some [d]
+      let! fs' := inline_fields_r (inline_fuel fl) fl [] fs in POk [DStruct id cs fs' p]
+  | DGroup _ _ => POk []
+  | _ => POk [d]
   end.
 
-Definition inline_groups (fl : file) : option file :=
-  option_map (fun dss => mkFile (f_endian fl) (List.concat dss)) (map_opt' (inline_decl fl) (f_decls fl)).
+Definition inline_groups_r (fl : file) : pres file :=
+  let! dss := pmap (inline_decl fl) (f_decls fl) in
+  POk (mkFile (f_endian fl) (List.concat dss)).
+
+Definition inline_groups (fl : file) : option file := pres_option (inline_groups_r fl).
